@@ -52,6 +52,7 @@ func main() {
 	pseed := fs.Int64("pseed", 0, "filechild: payload seed")
 	limit := fs.Int("limit", 0, "filechild: RLIMIT_FSIZE")
 	mode := fs.String("mode", "crash", "filechild: crash | ioerr")
+	stores := fs.String("stores", "", "map family: also write every Persist.Store call to this file")
 	big := fs.Int("big", 0, "every big-th case uses a large tree (0 = never)")
 	fs.Parse(os.Args[2:])
 	_ = in
@@ -59,6 +60,11 @@ func main() {
 	case "map":
 		enc, done := openOut(*out)
 		defer done()
+		if *stores != "" {
+			senc, sdone := openOut(*stores)
+			defer sdone()
+			storesOut = senc
+		}
 		for i := 0; i < *n; i++ {
 			var fixed *mapCfg
 			if *kt != "" {
@@ -86,6 +92,16 @@ func main() {
 		enc, done := openOut(*out)
 		defer done()
 		faultsFamily(*seed, *n, enc, *budget)
+	case "format":
+		enc, done := openOut(*out)
+		defer done()
+		formatFamily(*seed, *n, enc)
+	case "load":
+		enc, done := openOut(*out)
+		defer done()
+		for i := 0; i < *n; i++ {
+			loadCase(i+1, *seed*1000003+int64(i), enc)
+		}
 	case "store":
 		enc, done := openOut(*out)
 		defer done()
